@@ -345,3 +345,90 @@ Example C06_confined_move_example :
    None,
    [(CMkdir, CErr); (CMkdir, CErr); (CMkdir, COk); (CMkdir, CErr); (CMkdir, COk); (CMove, COk)]).
 Proof. exact confined_move_applies. Qed.
+
+(* ---------- the whole run: both passes ----------------------------------------------------------------------------- *)
+From Tempren Require Import Pipe.Safety Pipe.SafetyFacts Pipe.DryEqualsReal Pipe.ConfinedRun.
+
+(* Stop, Ignore, or Manual without "override" / "custom path"; every mode, dry or real, any fault.  Every entry that
+   differs between the initial and the final tree lies at or below the input directory of some file of the plan,
+   PROVIDED no symbolic link is moved during the run (third hypothesis from the end: the links of every state are
+   those of the initial tree).  The deferred renames of the second pass are issued without a new containment test;
+   what the tests of the first pass said stays true exactly as long as the links stay.  That the input directories
+   stay their own real path follows from the two conditions on the plan (each is its own real path in the initial
+   tree; none lies strictly below another: tempren has a single input directory). *)
+Theorem C06_run_confined : forall c plan cwd s,
+  c_var c = fixed -> WF s -> no_override c ->
+  (forall f r, In (f, r) plan -> chdir s (pf_dir f) = Some (pf_dir f)) ->
+  (forall f r f' r', In (f, r) plan -> In (f', r') plan ->
+     is_prefix_path (pf_dir f) (pf_dir f') = true -> pf_dir f = pf_dir f') ->
+  Forall (same_links s) (r_states (run c plan cwd s)) ->
+  forall k n,
+    (In (k, n) (r_final (run c plan cwd s)) /\ ~ In (k, n) s) \/ (In (k, n) s /\ ~ In (k, n) (r_final (run c plan cwd s))) ->
+    exists f r, In (f, r) plan /\ is_prefix_path (pf_dir f) k = true.
+Proof. exact run_confined_links_stable. Qed.
+Print Assumptions C06_run_confined.
+
+(* ... and the same for every intermediate state (after each successful rename / mkdir / move) *)
+Theorem C06_every_state_confined : forall c plan cwd s,
+  c_var c = fixed -> WF s -> no_override c ->
+  (forall f r, In (f, r) plan -> chdir s (pf_dir f) = Some (pf_dir f)) ->
+  (forall f r f' r', In (f, r) plan -> In (f', r') plan ->
+     is_prefix_path (pf_dir f) (pf_dir f') = true -> pf_dir f = pf_dir f') ->
+  Forall (same_links s) (r_states (run c plan cwd s)) ->
+  forall h, In h (r_states (run c plan cwd s)) -> forall k n,
+    (In (k, n) h /\ ~ In (k, n) s) \/ (In (k, n) s /\ ~ In (k, n) h) ->
+    exists f r, In (f, r) plan /\ is_prefix_path (pf_dir f) k = true.
+Proof. exact every_state_confined_links_stable. Qed.
+Print Assumptions C06_every_state_confined.
+
+(* a condition on the initial tree and the plan alone: no symbolic link at or below an input directory
+   ([plan_static]); then no state of the run can have moved one *)
+Theorem C06_run_confined_static : forall c plan cwd s,
+  c_var c = fixed -> no_override c -> WF s -> plan_static plan s ->
+  forall h, In h (r_final (run c plan cwd s) :: r_states (run c plan cwd s)) -> forall k n,
+    (In (k, n) h /\ ~ In (k, n) s) \/ (In (k, n) s /\ ~ In (k, n) h) ->
+    exists f r, In (f, r) plan /\ is_prefix_path (pf_dir f) k = true.
+Proof. exact run_confined_static. Qed.
+Print Assumptions C06_run_confined_static.
+
+(* the most general form: [run_good] = in every state of the run each input directory is its own real path and the
+   links are those of the initial tree; then the states form a chain of confined steps (a new directory, or a
+   re-keying of an entry strictly below an input directory to a key at or below the same directory) *)
+Theorem C06_run_is_chain_of_confined_steps : forall c plan cwd s,
+  c_var c = fixed -> no_override c -> run_good c plan cwd s ->
+  exists l, r_states (run c plan cwd s) = rev l /\ r_final (run c plan cwd s) = hd s l /\ chain (plan_dirs plan) s l.
+Proof. exact run_is_chain. Qed.
+Print Assumptions C06_run_is_chain_of_confined_steps.
+
+Theorem C06_run_good_from_stable_links : forall c plan cwd s,
+  c_var c = fixed -> no_override c -> WF s ->
+  (forall f r, In (f, r) plan -> chdir s (pf_dir f) = Some (pf_dir f)) ->
+  (forall f r f' r', In (f, r) plan -> In (f', r') plan ->
+     is_prefix_path (pf_dir f) (pf_dir f') = true -> pf_dir f = pf_dir f') ->
+  Forall (same_links s) (r_states (run c plan cwd s)) ->
+  run_good c plan cwd s.
+Proof. exact links_stable_run_good. Qed.
+Print Assumptions C06_run_good_from_stable_links.
+
+(* non-vacuity: a -> b is deferred (b is taken), b -> c, and the second pass renames a to b; a link outside /in *)
+Example C06_run_confined_example :
+  WF cr_fs /\ plan_static cr_plan cr_fs /\ no_override (cr_cfg MName) /\
+  (let r := run (cr_cfg MName) cr_plan [] cr_fs in (r_status r, r_final r, r_calls r)) =
+  (0%Z,
+   [([n_in], NDir); ([n_in; n_b], NFile 1); ([n_in; cr_c], NFile 2); ([cr_out], NDir);
+    ([cr_out; cr_l], NLink 3 {| up_abs := true; up_comps := [n_in] |})],
+   [(CRename, COk); (CRename, COk)]).
+Proof. exact confined_run_applies. Qed.
+
+(* the hypothesis on the links cannot be dropped: lnk/a -> b is deferred after all three tests said yes; the plan then
+   renames lnk away and puts a link to /out in its place; the retried rename moves /out/a to /out/b, status 0 *)
+Example C06_deferred_rename_is_not_retested :
+  WF swap_fs /\ chdir swap_fs [n_in] = Some [n_in] /\
+  (let r := run (cr_cfg MName) swap_plan [] swap_fs in (r_status r, r_final r)) =
+  (0%Z,
+   [([n_in], NDir); ([n_in; n_sub], NDir); ([n_in; n_sub; n_a], NFile 1); ([n_in; n_sub; n_b], NFile 2);
+    ([n_in; cr_lnk2], NLink 4 {| up_abs := false; up_comps := [n_sub] |});
+    ([n_in; cr_lnk], NLink 5 {| up_abs := true; up_comps := [cr_out] |});
+    ([cr_out], NDir); ([cr_out; n_b], NFile 3)]) /\
+  is_prefix_path [n_in] [cr_out; n_b] = false /\ is_prefix_path [n_in] [cr_out; n_a] = false.
+Proof. exact swap_run. Qed.
